@@ -2244,6 +2244,205 @@ def _coalesce_copies(fn: ast.AST) -> int:
     return k
 
 
+def _pair_lists(fn: ast.AST) -> int:
+    """T33: a local list of fixed-arity tuples (`L = [(a, b)]`, `L.append((c, d))` or `L.append(t)` with t a tuple literal bound
+    just before, `*L[-1]` / `L[-1][j]` reads, finally unzipped `A, B = (C(v) for v in zip(*reversed(L)))`) is one list per
+    component (`L__0`, `L__1`), unzipped for free: `A = C(reversed(L__0))`.
+    T34: a local list built by `[e]` and `.append`, read only as `M[-1]`, and finally turned into `D = deque(reversed(M))`
+    is the deque D grown on the left: `D = deque([e])`, `D.appendleft(x)`, `D[0]`."""
+    k = 0
+    a_ = fn.args if isinstance(fn, (ast.FunctionDef, ast.AsyncFunctionDef)) else None
+    params = {p_.arg for p_ in (a_.posonlyargs + a_.args + a_.kwonlyargs)} if a_ else set()
+    parent = {id(c): p_ for p_ in ast.walk(fn) for c in ast.iter_child_nodes(p_)}
+
+    def body_of(st):
+        for b in _bodies(fn):
+            if any(x is st for x in b):
+                return b
+        return None
+    # ---- T33
+    for st in [n for n in ast.walk(fn) if isinstance(n, (ast.Assign, ast.AnnAssign)) and getattr(n, "value", None) is not None]:
+        tg = st.targets[0] if isinstance(st, ast.Assign) and len(st.targets) == 1 else getattr(st, "target", None)
+        v = st.value
+        if not (isinstance(tg, ast.Name) and tg.id not in params and isinstance(v, ast.List) and v.elts and all(isinstance(e, ast.Tuple) for e in v.elts)):
+            continue
+        L = tg.id
+        r = len(v.elts[0].elts)
+        if r < 2 or any(len(e.elts) != r for e in v.elts):
+            continue
+        if sum(1 for n in ast.walk(fn) if isinstance(n, ast.Name) and n.id == L and isinstance(n.ctx, ast.Store)) != 1:
+            continue
+        uses = [n for n in ast.walk(fn) if isinstance(n, ast.Name) and n.id == L and isinstance(n.ctx, ast.Load)]
+        plan = []
+        ok = True
+        final = None
+        for u in uses:
+            p1 = parent.get(id(u))
+            p2 = parent.get(id(p1)) if p1 is not None else None
+            p3 = parent.get(id(p2)) if p2 is not None else None
+            # L.append(T)
+            if isinstance(p1, ast.Attribute) and p1.attr == "append" and isinstance(p2, ast.Call) and p2.func is p1 and len(p2.args) == 1 and isinstance(p3, ast.Expr):
+                a0 = p2.args[0]
+                if isinstance(a0, ast.Name):
+                    # t = (c, d) bound by the statement just before, in the same block or the enclosing one
+                    b_ = body_of(p3)
+                    enc = None
+                    for bb in _bodies(fn):
+                        for x in bb:
+                            if isinstance(x, ast.Assign) and len(x.targets) == 1 and isinstance(x.targets[0], ast.Name) and x.targets[0].id == a0.id \
+                                    and isinstance(x.value, ast.Tuple) and len(x.value.elts) == r:
+                                enc = x
+                    nstores = sum(1 for n in ast.walk(fn) if isinstance(n, ast.Name) and n.id == a0.id and isinstance(n.ctx, ast.Store))
+                    if enc is None or nstores != 1 or not all(_is_pure(e) for e in enc.value.elts):
+                        ok = False
+                        break
+                    plan.append(("append", p3, list(enc.value.elts)))
+                elif isinstance(a0, ast.Tuple) and len(a0.elts) == r:
+                    plan.append(("append", p3, list(a0.elts)))
+                else:
+                    ok = False
+                    break
+                continue
+            # *L[i]  /  L[i][j]
+            if isinstance(p1, ast.Subscript) and p1.value is u and isinstance(p1.ctx, ast.Load):
+                if isinstance(p2, ast.Starred) and isinstance(p3, ast.Call) and p2 in p3.args:
+                    plan.append(("star", p3, p2, p1.slice))
+                    continue
+                if isinstance(p2, ast.Subscript) and p2.value is p1 and isinstance(p2.slice, ast.Constant) and isinstance(p2.slice.value, int) and 0 <= p2.slice.value < r:
+                    plan.append(("item", p2, p1.slice, p2.slice.value))
+                    continue
+                ok = False
+                break
+            # zip(*reversed(L)) / zip(*L) as the iterable of a generator that is unpacked into r names
+            rev = False
+            z = p1
+            if isinstance(p1, ast.Call) and isinstance(p1.func, ast.Name) and p1.func.id == "reversed" and len(p1.args) == 1:
+                rev, z = True, parent.get(id(p1))
+            else:
+                z = u
+                z = p1 if isinstance(p1, ast.Starred) else None
+            star = z if isinstance(z, ast.Starred) else None
+            zc = parent.get(id(star)) if star is not None else None
+            if not (isinstance(zc, ast.Call) and isinstance(zc.func, ast.Name) and zc.func.id == "zip" and len(zc.args) == 1 and not zc.keywords):
+                ok = False
+                break
+            comp = parent.get(id(zc))
+            gen = parent.get(id(comp)) if isinstance(comp, ast.comprehension) else None
+            asg = parent.get(id(gen)) if isinstance(gen, ast.GeneratorExp) else (parent.get(id(zc)) if isinstance(parent.get(id(zc)), ast.Assign) else None)
+            if isinstance(gen, ast.GeneratorExp) and isinstance(asg, ast.Assign) and asg.value is gen and len(gen.generators) == 1 and not comp.ifs \
+                    and isinstance(comp.target, ast.Name) and isinstance(asg.targets[0], ast.Tuple) and len(asg.targets[0].elts) == r \
+                    and isinstance(gen.elt, ast.Call) and len(gen.elt.args) == 1 and isinstance(gen.elt.args[0], ast.Name) and gen.elt.args[0].id == comp.target.id \
+                    and not gen.elt.keywords:
+                final = ("gen", asg, gen.elt.func, rev)
+            elif isinstance(asg, ast.Assign) and asg.value is zc and isinstance(asg.targets[0], ast.Tuple) and len(asg.targets[0].elts) == r:
+                final = ("zip", asg, None, rev)
+            else:
+                ok = False
+                break
+        if not ok or final is None:
+            continue
+        names = [f"{L}__{j}" for j in range(r)]
+        taken = {n.id for n in ast.walk(fn) if isinstance(n, ast.Name)}
+        if any(nm in taken for nm in names):
+            continue
+        # creation
+        b0 = body_of(st)
+        i0 = next(i for i, x in enumerate(b0) if x is st)
+        b0[i0:i0 + 1] = [ast.copy_location(ast.Assign(targets=[ast.Name(names[j], ast.Store())],
+                                                       value=ast.List(elts=[e.elts[j] for e in v.elts], ctx=ast.Load())), st) for j in range(r)]
+        for item in plan:
+            if item[0] == "append":
+                _, est, elts = item
+                bb = body_of(est)
+                ii = next(i for i, x in enumerate(bb) if x is est)
+                bb[ii:ii + 1] = [ast.copy_location(ast.Expr(value=ast.Call(func=ast.Attribute(value=ast.Name(names[j], ast.Load()), attr="append", ctx=ast.Load()),
+                                                                          args=[copy.deepcopy(elts[j])], keywords=[])), est) for j in range(r)]
+            elif item[0] == "star":
+                _, call, starred, idx = item
+                at = call.args.index(starred)
+                call.args[at:at + 1] = [ast.Subscript(value=ast.Name(names[j], ast.Load()), slice=copy.deepcopy(idx), ctx=ast.Load()) for j in range(r)]
+            else:
+                _, node, idx, j = item
+                node.value = ast.Name(names[j], ast.Load())
+                node.slice = copy.deepcopy(idx)
+        kind, asg, ctor, rev = final
+        bb = body_of(asg)
+        ii = next(i for i, x in enumerate(bb) if x is asg)
+        new = []
+        for j, t_ in enumerate(asg.targets[0].elts):
+            src_ = ast.Name(names[j], ast.Load())
+            val = ast.Call(func=ast.Name("reversed", ast.Load()), args=[src_], keywords=[]) if rev else src_
+            if ctor is not None:
+                val = ast.Call(func=copy.deepcopy(ctor), args=[val], keywords=[])
+            else:
+                val = ast.Call(func=ast.Name("tuple", ast.Load()), args=[val], keywords=[])
+            new.append(ast.copy_location(ast.Assign(targets=[t_], value=val), asg))
+        bb[ii:ii + 1] = new
+        for b in _bodies(fn):
+            for x in b:
+                ast.fix_missing_locations(x)
+        k += 1
+        parent = {id(c): p_ for p_ in ast.walk(fn) for c in ast.iter_child_nodes(p_)}
+    # ---- T34
+    for st in [n for n in ast.walk(fn) if isinstance(n, ast.Assign) and len(n.targets) == 1 and isinstance(n.targets[0], ast.Name)]:
+        D = st.targets[0].id
+        v = st.value
+        if not (isinstance(v, ast.Call) and (dotted_name(v.func) or "").split(".")[-1] in ("deque", "Deque") and len(v.args) == 1 and not v.keywords
+                and isinstance(v.args[0], ast.Call) and isinstance(v.args[0].func, ast.Name) and v.args[0].func.id == "reversed"
+                and len(v.args[0].args) == 1 and isinstance(v.args[0].args[0], ast.Name)):
+            continue
+        M = v.args[0].args[0].id
+        if M in params or D in params:
+            continue
+        creates = [n for n in ast.walk(fn) if isinstance(n, ast.Assign) and len(n.targets) == 1 and isinstance(n.targets[0], ast.Name)
+                   and n.targets[0].id == M]
+        if len(creates) != 1 or not (isinstance(creates[0].value, ast.List) and len(creates[0].value.elts) == 1):
+            continue
+        if sum(1 for n in ast.walk(fn) if isinstance(n, ast.Name) and n.id == D) != 1 + sum(
+                1 for n in ast.walk(fn) if isinstance(n, ast.Name) and n.id == D and isinstance(n.ctx, ast.Load)):
+            continue
+        # D must not be used before this statement (by position in the enclosing block) -- require: D's only store is here and
+        # every load of D comes after in the same block
+        bD = body_of(st)
+        iD = next(i for i, x in enumerate(bD) if x is st)
+        after_ids = {id(n) for t in bD[iD + 1:] for n in ast.walk(t)}
+        if any(isinstance(n, ast.Name) and n.id == D and isinstance(n.ctx, ast.Load) and id(n) not in after_ids for n in ast.walk(fn)):
+            continue
+        uses = [n for n in ast.walk(fn) if isinstance(n, ast.Name) and n.id == M and isinstance(n.ctx, ast.Load) and n is not v.args[0].args[0]]
+        ok = True
+        before_ids = {id(n) for t in bD[:iD] for n in ast.walk(t)}
+        for u in uses:
+            p1 = parent.get(id(u))
+            p2 = parent.get(id(p1)) if p1 is not None else None
+            if id(u) not in before_ids:
+                ok = False
+                break
+            if isinstance(p1, ast.Attribute) and p1.attr == "append" and isinstance(p2, ast.Call) and p2.func is p1 and len(p2.args) == 1:
+                continue
+            if isinstance(p1, ast.Subscript) and p1.value is u and isinstance(p1.ctx, ast.Load) and isinstance(p1.slice, ast.UnaryOp) \
+                    and isinstance(p1.slice.op, ast.USub) and isinstance(p1.slice.operand, ast.Constant) and p1.slice.operand.value == 1:
+                continue
+            ok = False
+            break
+        if not ok or body_of(creates[0]) is not bD:
+            continue
+        for u in uses:
+            p1 = parent.get(id(u))
+            u.id = D
+            if isinstance(p1, ast.Attribute):
+                p1.attr = "appendleft"
+            else:
+                p1.slice = ast.Constant(0)
+        creates[0].targets[0].id = D
+        creates[0].value = ast.Call(func=copy.deepcopy(v.func), args=[creates[0].value], keywords=[])
+        bD.remove(st)
+        for x in bD:
+            ast.fix_missing_locations(x)
+        k += 1
+        parent = {id(c): p_ for p_ in ast.walk(fn) for c in ast.iter_child_nodes(p_)}
+    return k
+
+
 def _delegating_generators(tree: ast.Module) -> int:
     """T21: a module-level generator whose whole body is `yield from E` hands out exactly the items of E; when every
     call of it is the iterable of a `for` statement or of a comprehension (consumed at once, on the spot), the call
@@ -2288,6 +2487,7 @@ def normalise(tree: ast.Module, modname: str = "") -> Dict[str, int]:
         stats["T3 unroll"] += _unroll(fn)
         stats["T3 unroll"] += _unroll_search(fn)
     stats["T22 list builder"] = sum(_list_builders(fn) for fn in fns)
+    stats["T33/T34 pair lists"] = sum(_pair_lists(fn) for fn in fns)
     _AttrCalls().visit(tree)
     nv = _Numpy()
     nv.visit(tree)
